@@ -129,8 +129,10 @@ Fixpoint digits_val (s : str) (acc : N) : option N :=
   | c :: r => if is_digit c then digits_val r (acc * 10 + (c - 48)) else None
   end.
 (* optional leading '+', at least one digit, value < 2^w *)
+Definition strip_plus (s : str) : str :=
+  match s with c :: r => if c =? 43 then r else s | [] => s end.
 Definition parse_uint (w : N) (s : str) : option N :=
-  let body := match s with 43 :: r => r | _ => s end in
+  let body := strip_plus s in
   match body with
   | [] => None
   | _ => match digits_val body 0 with
